@@ -37,6 +37,10 @@ func (r Ring) Bound() Bound {
 func (r Ring) Orientation() Orientation {
 	area := 0.0
 
+	if len(r) == 0 {
+		return 0
+	}
+
 	// This is a fast planar area computation, which is okay for this use.
 	// implicitly move everything to near the origin to help with roundoff
 	offsetX := r[0][0]
